@@ -24,7 +24,9 @@ JudgeBind(o) ==
 JudgeChain(o) ==
     \* (the same fact is C01's "the backend observes exactly the message the client sent" for REST targets)
     (IF o.code = 0 /\ o.finalid # 1 THEN {"C07.RoundTripIdentity", "C01.RestTargetMessageIntact"} ELSE {})
-    \cup (IF o.scn.msgkind \in StrictKinds /\ o.code # 0 THEN {"C07.ExpressibleMessageFails"} ELSE {})
+    \cup (IF o.scn.msgkind \in StrictKinds /\ o.scn.nonconf = "" /\ o.code # 0 THEN {"C07.ExpressibleMessageFails"} ELSE {})
+    \* a value that does not fit the variable's pattern has no REST form: it must not be forwarded as something else
+    \cup (IF o.scn.nonconf # "" /\ o.code = 0 /\ o.finalid # 1 THEN {"C07.NonConformingValueForwarded"} ELSE {})
     \cup (IF o.midn >= 1 /\ o.midhttp # RuleInfo(o.scn.rule).http THEN {"C07.RequestLineFromRule"} ELSE {})
     \cup (IF o.midn >= 1 /\ ~o.midpath THEN {"C07.PathFromTemplate"} ELSE {})
     \cup (IF o.midn >= 1 /\ RuleInfo(o.scn.rule).body = "none" /\ o.midbody THEN {"C07.NoBodyWhenRuleHasNone"} ELSE {})
